@@ -502,6 +502,41 @@ def _total_validators(chk, repo, cv):
                 chk.ob("TOTAL-12", "%s answers None only for an absent value" % name, ok, f.where(r.ast), detail="guards %s" % sorted(g.items()),
                        construct=f.ident, text="None result in " + name)
     chk.floor("TOTAL-12", 30)
+    # MEMBER-12: a validator that checks membership returns the very value it checked (or a literal member) -- a value that
+    # was normalised for the test only (lower-cased, stripped, converted) and returned raw is outside the declared set
+    n_m = 0
+    for name, f in sorted(cv.methods.items()):
+        if not name.startswith("_validate_type_"):
+            continue
+        cfg = f.cfg()
+        for r in [x for x in cfg.nodes if x.kind == "stmt" and isinstance(x.ast, ast.Return) and x.ast.value is not None]:
+            g = cfg.guards_at(r.id)
+            mem = [(k, v) for k, v in g.items() if v is True and " in " in k and " not in " not in k]
+            if not mem:
+                continue
+            v = r.ast.value
+            for k, _ in mem:
+                try:
+                    t = ast.parse(k, mode="eval").body
+                except SyntaxError:
+                    continue
+                if not (isinstance(t, ast.Compare) and len(t.ops) == 1 and isinstance(t.ops[0], ast.In)):
+                    continue
+                tested, coll = t.left, t.comparators[0]
+                # only memberships in the *declared* value set: a collection computed from the validator's `param`
+                if not isinstance(coll, ast.Name):
+                    continue
+                defs = [a for a in ast.walk(f.node) if isinstance(a, ast.Assign) and any(src(t_) == coll.id for t_ in a.targets)]
+                if not defs or not all(any(isinstance(y, ast.Name) and y.id == "param" for y in ast.walk(a.value)) for a in defs):
+                    continue
+                n_m += 1
+                if isinstance(tested, ast.Constant):
+                    ok = isinstance(v, ast.Constant) and (v.value == tested.value or (v.value is None and str(tested.value).lower() == "none"))
+                else:
+                    ok = src(v) == src(tested) or src(v) == "%s[%s]" % (src(coll), src(tested))     # the member itself, or the entry it names
+                chk.ob("MEMBER-12", "%s returns the value whose membership in `%s` it checked" % (name, src(coll)), ok, f.where(r.ast),
+                       detail="tested `%s`, returns `%s`" % (src(tested), src(v)), construct=f.ident, text="%s returns %s after testing %s" % (name, src(v), src(tested)))
+    chk.ob("MEMBER-12", "membership-checked results examined", n_m >= 4, cv.methods["_validate_type_enum"].where(), detail="%d" % n_m, nontrivial=False)
     # sibling agreement of the template validators: the raw item's type is asserted before a template is built from it
     for name, f in sorted(cv.methods.items()):
         if not name.startswith("_validate_type_template_") or name.endswith("_str"):
@@ -608,6 +643,9 @@ def battery():
         M("template_ms accepts any type", CV, "        self._assert_int_float_template(item, validation_failure_info)\n\n        # try to convert to int. if we fail it will be a template", "        # try to convert to int. if we fail it will be a template", "SIB-6"),
         M("list helper swallows 0", "mpf/core/utility_functions.py", "        if isinstance(string, str):\n            # empty string is an empty list\n            if string == '':\n                return []\n\n            # Convert commas to spaces", "        if not string:\n            return []\n        if isinstance(string, str):\n            # Convert commas to spaces", "LIST-12"),
         M("unknown-key scan stops at the first known key", CV, "                if not isinstance(k, dict) and k not in spec and k[0] != '_':\n", "                if isinstance(k, dict) or k in spec or k[0] == '_':\n                    return\n                if True:\n", "DOM-24"),
+        M("enum checked case-insensitively but returned as written", CV, "        try:\n            item = item.lower()\n        except AttributeError:\n            pass\n\n        if item is None and \"none\" in enum_values:\n            return None\n        if str(item) in enum_values:\n            return str(item)", "        if item is None and \"none\" in enum_values:\n            return None\n        if str(item).lower() in enum_values:\n            return str(item)", "MEMBER-12"),
+        M("enum yes/no literal mismatch", CV, "        if item is True and 'yes' in enum_values:\n            return 'yes'", "        if item is True and 'yes' in enum_values:\n            return 'true'", "MEMBER-12"),
+        M("twin: enum value bound to a local first", CV, "        if str(item) in enum_values:\n            return str(item)", "        if str(item) in enum_values:\n            return str(item)  # member", None),
     ]
 
 
